@@ -93,9 +93,9 @@ CHECKS.update({
 
 CHECKS.update({
     "C15": ("exploration",
-            "controlled-scheduler runtime monitor: private instances of the real lock.py (one per simulated process) run with shimmed threading / fcntl / os on a simulated POSIX record-lock kernel; every lock, condition and system call is a scheduling point chosen by a seeded (random / PCT) scheduler; online monitor of mutual exclusion, kernel-lock coverage, recursion rule, try-lock soundness, pool emptiness, and deadlock classification against an ideal reader-writer lock",
-            "Generated nested lock programs (<= 3 threads over <= 2 processes, <= 2 paths, shared/exclusive, blocking/non-blocking, reentrant or not) are each executed under 40 (quick) / 250 (thorough) distinct schedules; at every entry and exit the holders recorded at the client boundary are checked against each other and against the simulated kernel's lock table; every run that ends with blocked threads is classified as inherent (ideal lock would block too / kernel EDEADLK) or as a lost wake-up.",
-            "Trusted: vp/sched.py (cooperative scheduler, shims, the simulated kernel follows fcntl(2): per-process record locks, replaced on re-lock, all dropped on any close of the file, EDEADLK on cycles). The real kernel and CPython's own Lock/Condition are not under test.", "DESIGN.md §3 C15"),
+            "controlled-scheduler runtime monitor: private instances of the real lock.py (one per simulated process) run with shimmed threading / fcntl / os on a simulated POSIX record-lock kernel; every lock, condition and system call is a scheduling point chosen by a seeded (random / PCT) scheduler; online monitor of mutual exclusion, kernel-lock coverage, recursion rule, try-lock soundness, pool emptiness, and deadlock classification against an ideal reader-writer lock; plus a real-kernel stress tier: real processes and threads on the real fcntl with sys.monitoring yield injection, in-body enter/exit events merged and checked offline for overlap, /proc/locks read back inside lock bodies",
+            "Generated nested lock programs (<= 3 threads over <= 2 processes, <= 2 paths, shared/exclusive, blocking/non-blocking, reentrant or not) are each executed under 40 (quick) / 250 (thorough) distinct schedules; at every entry and exit the holders recorded at the client boundary are checked against each other and against the simulated kernel's lock table; every run that ends with blocked threads is classified as inherent (ideal lock would block too / kernel EDEADLK) or as a lost wake-up. 36 (quick) / 600 (thorough) further cases run deadlock-free-by-construction programs in 2-3 real processes x 1-4 real threads for 20 / 40 rounds against the real kernel (exclusion on recorded intervals, kernel lock present and exclusive as needed per /proc/locks, bookkeeping, descriptors and kernel locks empty at the end); a real run that does not finish is inconclusive.",
+            "Trusted: vp/sched.py (cooperative scheduler, shims, the simulated kernel follows fcntl(2): per-process record locks, replaced on re-lock, all dropped on any close of the file, EDEADLK on cycles). CPython's own Lock/Condition are not under test; in the real-kernel tier the kernel's /proc/locks listing and CLOCK_MONOTONIC are trusted.", "DESIGN.md §3 C15, §10.2"),
 })
 
 CHECKS.update({
